@@ -1123,3 +1123,54 @@ Proof.
     assert (Hf : In fd (find_by_bind k key')) by (apply H4; eauto).
     apply find_binds_nonempty_key. unfold find_by_bind in Hf. intros E. rewrite E in Hf. destruct Hf.
 Qed.
+
+(* ---- Kernel::close ------------------------------------------------------------------------------ *)
+Lemma get_remove_none k x y : get k x = None -> get (remove k y) x = None.
+Proof. intros H. rewrite remove_get. destruct (x =? y); auto. Qed.
+
+Lemma get_emit k s d f t x : get (emit k s d f t) x = get k x.
+Proof. reflexivity. Qed.
+
+Lemma rst_child_keeps_none k c x : get k x = None -> get (rst_child k c) x = None.
+Proof.
+  intros H. unfold rst_child. destruct (get k c) as [s|]; [|exact H].
+  destruct (s_tcb s); apply get_remove_none; exact H.
+Qed.
+
+Lemma rst_child_removes k c : get (rst_child k c) c = None.
+Proof.
+  unfold rst_child. destruct (get k c) as [s|] eqn:G; [|exact G].
+  destruct (s_tcb s); rewrite remove_get, N.eqb_refl; reflexivity.
+Qed.
+
+Lemma fold_rst_keeps_none cs : forall k x, get k x = None -> get (fold_left rst_child cs k) x = None.
+Proof. induction cs as [|c r IH]; intros k x H; cbn; [exact H|]. now apply IH, rst_child_keeps_none. Qed.
+
+Lemma fold_rst_removes cs : forall k c, In c cs -> get (fold_left rst_child cs k) c = None.
+Proof.
+  induction cs as [|c0 r IH]; intros k c; cbn; [intros []|].
+  intros [->|H]; [apply fold_rst_keeps_none, rst_child_removes|now apply IH].
+Qed.
+
+Lemma close_releases_lemma k fd : sock_wf k -> k_bad (close k fd) = k_bad k ->
+  (get k fd <> None -> k_bad k = false ->
+   get (close k fd) fd = None /\
+   (forall key, ~ In fd (find_by_bind (close k fd) key)) /\
+   (forall l r, find_connection (close k fd) l r <> Some fd)) /\
+  (forall s b ready, get k fd = Some s -> s_ty s = Stream -> s_tcb s = None -> s_listen s = Some (b, ready) ->
+     forall c, In c ready -> get (close k fd) c = None).
+Proof.
+  intros Hw Hb. split.
+  - intros Hg Hbad. unfold close in *. destruct (get k fd) as [s|] eqn:G; [|congruence].
+    assert (R : forall k', get (remove k' fd) fd = None /\ (forall key, ~ In fd (find_by_bind (remove k' fd) key)) /\
+                           (forall l r, find_connection (remove k' fd) l r <> Some fd)).
+    { intros k'. split; [rewrite remove_get, N.eqb_refl; reflexivity|]. split; [apply remove_binds_no_fd|apply remove_conns]. }
+    destruct (s_ty s).
+    + destruct (s_tcb s) as [t|].
+      * destruct (negb (t_reset t) && tstate_eqb (t_state t) Established); [|apply R].
+        destruct (nonempty (t_recv t)); [apply R|]. cbn in Hb. congruence.
+      * destruct (s_listen s) as [[b r]|]; apply R.
+    + destruct (s_tcb s), (s_listen s) as [[? ?]|]; apply R.
+  - intros s b ready G Ht Htcb Hl c Hc. unfold close. rewrite G, Ht, Htcb, Hl. unfold close_listener.
+    apply get_remove_none. apply fold_rst_removes. apply in_or_app. now left.
+Qed.
